@@ -248,6 +248,92 @@ def server_part(ctx, rng):
     return per, len(scs)
 
 
+# ---- TraceLin (C16): corrupted concurrent histories
+
+def lin_part(ctx, rng):
+    import c16
+    prim = ctx.tlc("MC_C16", c16.cfg(c16.PRIMS, False, ["Export"]), name="MC_C16_prims", workers=vlib.NCPU, timeout=1800)
+    forced = [json.loads(x) for x in prim.scenarios]
+    forced = rng.sample(forced, min(500, len(forced)))
+    scen = os.path.join(ctx.work, "bindlin_scen.jsonl")
+    vlib.write_jsonl(scen, forced)
+    trace = os.path.join(ctx.work, "bindlin.ndjson")
+    ctx.harness(["lin", "--scenarios", scen, "--out", trace], timeout=3600)
+    accepted, scs, lines = c16.validate(ctx, trace, "{}", "bindlin")
+    base = [sc for sc in scs if sc in accepted]
+    if len(base) < len(scs):
+        raise vlib.Inconclusive("%d of %d histories of single-primitive commands are not linearizable: run C16 first" % (len(scs) - len(base), len(scs)))
+
+    def writes(evs, pred):
+        return [i for i, e in enumerate(evs) if e["ev"] == "write" and not e.get("failed") and pred(bytes(e["b"]))]
+
+    def m_int_plus_one(evs):      # :n -> :n+1  (a SETNX that did not win claims it did, a DEL that removed nothing claims 1, ...)
+        # (0 -> 1 can be another legal linearization of overlapping commands; 1 -> 2 is impossible for SETNX and DEL of one key)
+        w = writes(evs, lambda b: b[:1] == b":" and b[1:-2].isdigit() and int(b[1:-2]) >= 1)
+        if not w:
+            return None
+        i = rng.choice(w)
+        n = int(bytes(evs[i]["b"])[1:-2])
+        out = list(evs)
+        out[i] = dict(evs[i], b=list(b":%d\r\n" % (n + 1)))
+        return out
+
+    def m_value_never_written(evs):
+        w = writes(evs, lambda b: b[:1] == b"$" and not b.startswith(b"$-1"))
+        if not w:
+            return None
+        i = rng.choice(w)
+        out = list(evs)
+        out[i] = dict(evs[i], b=list(b"$5\r\nnever\r\n"))
+        return out
+
+    def m_nil_for_value(evs):
+        w = writes(evs, lambda b: b[:1] == b"$" and not b.startswith(b"$-1"))
+        if not w:
+            return None
+        i = rng.choice(w)
+        if sum(1 for e in evs if e["ev"] == "reqs" and any(r["name"] in ("DEL", "GETSET", "SET", "SETNX") for r in e["reqs"])) > 1:
+            pass
+        out = list(evs)
+        out[i] = dict(evs[i], b=list(b"$-1\r\n"))
+        return out
+
+    muts = {"lin:int_plus_one": m_int_plus_one, "lin:value_never_written": m_value_never_written}
+    out = os.path.join(ctx.work, "bindlin_mut.ndjson")
+    made = {}
+    nid = 0
+    with open(out, "w") as f:
+        for name, m in sorted(muts.items()):
+            cands = list(base)
+            rng.shuffle(cands)
+            n = 0
+            for sc in cands:
+                if n >= 100:
+                    break
+                mut = m(events(lines[sc]))
+                if mut is None:
+                    continue
+                nid += 1
+                n += 1
+                made[nid] = (name, sc)
+                for e in mut:
+                    f.write(json.dumps(dict(e, sc=nid), separators=(",", ":")) + "\n")
+    acc2, scs2, lines2 = c16.validate(ctx, out, "{}", "bindlin-mut")
+    per = {}
+    for k, (name, sc) in made.items():
+        t = per.setdefault(name, [0, 0])
+        t[0] += 1
+        if k in acc2:
+            t[1] += 1
+            if t[1] <= 2:
+                ctx.violation("corrupted history ACCEPTED as linearizable by TraceLin (%s applied to history %d)" % (name, sc),
+                              {"mutation": name, "trace": [json.loads(x) for x in lines2[k]][:200]})
+    for name in muts:
+        if name not in per:
+            raise vlib.Inconclusive("mutation %s was never applicable (vacuous self-test)" % name)
+    return per
+
+
 def run(ctx):
     ctx.build()
     pipes = ctx.tlc("MC_C03", "MC_C03_quick.cfg", name="MC_C03", workers=vlib.NCPU, timeout=1800)
@@ -293,6 +379,7 @@ def run(ctx):
                               {"mutation": name, "trace": [json.loads(x) for x in lines2[k]][:200]})
     sper, nscripts = server_part(ctx, rng)
     per.update(sper)
+    per.update(lin_part(ctx, rng))
     for name, (n, a) in sorted(per.items()):
         print("BIND %-22s corrupted=%4d accepted=%d" % (name, n, a))
         if n == 0:
